@@ -11,6 +11,14 @@ CONF = {
                 jobs={"quick": [dict(runs=60)] * 6, "thorough": [dict(runs=300)] * 14},
                 models={"quick": [("MC_RxPath", "MC_RxPath_quick.cfg")], "thorough": [("MC_RxPath", "MC_RxPath_thorough.cfg")]},
                 split=None),
+    "C17": dict(driver="diag", spec="TraceDiag", deps=["Diag.tla", "TraceDiag.tla", "MC_Diag.tla"],
+                jobs={"quick": [dict(part=i, parts=6) for i in range(6)], "thorough": [dict(part=i, parts=14) for i in range(14)]},
+                models={"quick": [("MC_Diag", "MC_Diag_quick.cfg")], "thorough": [("MC_Diag", "MC_Diag_thorough.cfg")]},
+                split=None, same_seed=True),
+    "C20": dict(driver="prm", spec="TracePrm", deps=["Prm.tla", "TracePrm.tla"],
+                jobs={"quick": [dict(runs=250)] * 6, "thorough": [dict(runs=3000)] * 14},
+                models={"quick": [("MC_Prm", "MC_Prm_quick.cfg")], "thorough": [("MC_Prm", "MC_Prm_thorough.cfg")]},
+                split=None),
 }
 
 
@@ -27,7 +35,7 @@ def run(prop, tier):
     jobs = []
     for k, j in enumerate(c["jobs"][tier]):
         out = os.path.join(d, "%s_%02d.ndjson" % (c["driver"], k))
-        args = [c["driver"], "--tier", tier, "--seed", seed * 7001 + k]
+        args = [c["driver"], "--tier", tier, "--seed", seed * 7001 + (0 if c.get("same_seed") else k)]
         for key, v in j.items():
             args += ["--" + key, v]
         jobs.append((args, out))
